@@ -56,6 +56,26 @@ os.remove(file_name + '.old')
 with open(self.checkpoint, 'w') as fp:
     json.dump(full_state, fp, cls=ParameterEncoder, indent=2)
 ''', expect=[('C18.W', 'MCMC')]),
+    Mut('c18-caller-removes-the-checkpoint-first', OPT, 'Optimizer.save_full_state', 'save_parameters(checkpoint, full_state, safely, overwrite)', """
+if overwrite and os.path.lexists(checkpoint):
+    os.remove(checkpoint)
+save_parameters(checkpoint, full_state, safely, overwrite)
+""", expect=[('C18.I1', 'caller::torchtree.optim.optimizer.Optimizer.save_full_state')],
+        more=[dict(scope='', old="import copy\n", new="import copy\nimport os\n", mode='text')],
+        note='the parameter handed to the writer as its path is the checkpoint name: removing it first leaves a crash window without any complete file'),
+    Mut('c18-caller-writes-through-a-renamed-temporary', OPT, 'Optimizer.save_full_state', 'save_parameters(checkpoint, full_state, safely, overwrite)', """
+tmp = checkpoint.replace('.json', '.tmp.json')
+save_parameters(tmp, full_state, safely, overwrite)
+shutil.move(tmp, checkpoint)
+""", expect=[('C18.I1', 'caller::torchtree.optim.optimizer.Optimizer.save_full_state')],
+        more=[dict(scope='', old="import copy\n", new="import copy\nimport shutil\n", mode='text')],
+        note="str.replace returns the name itself when '.json' does not occur in it: the temporary may be the checkpoint"),
+    Mut('c18-benign-caller-removes-an-unrelated-file', OPT, 'Optimizer.save_full_state', 'save_parameters(checkpoint, full_state, safely, overwrite)', """
+if os.path.lexists(checkpoint + '.lock'):
+    os.remove(checkpoint + '.lock')
+save_parameters(checkpoint, full_state, safely, overwrite)
+""", benign=True,
+        more=[dict(scope='', old="import copy\n", new="import copy\nimport os\n", mode='text')]),
     # benign twins
     Mut('c18-benign-tmp-variable', PU, 'save_parameters', 'if not safely:…', '''
 if not safely:
